@@ -63,7 +63,7 @@ def worker(ctx, job):
         data = ref.gen(n, 112)
         odata = ref.gen(max(n, 1), 113)
         priors = ["absent"] if (big or entry == "open_hash") else ["absent", "present", "removed"]
-        chunkss = [[n]] if big else ([[n], [1, n - 1]] if n > 1 else [[n], [0, n]])
+        chunkss = [[n]] if big else ([[n], [1, n - 1], [n - 1, 1]] if n > 1 else [[n], [0, n]])
         dsizes = [None, n, n + 1, 2 * n + 3] + ([n - 1, 0] if n > 0 else [])
         if big and quick:
             dsizes = [None, n, n - 1, n + 1]
@@ -121,6 +121,12 @@ def worker(ctx, job):
                         if got not in allowed:
                             V.violation(res, "%s:got-%s" % (sig, got), "commit replied %s, allowed: %s" % (cls, sorted(allowed)), replay)
                             continue
+                        # whatever the verdict, the content area must hold only files that match their address
+                        snap_ = fsutil.snapshot(cache) or {}
+                        for rel_, e_ in snap_.items():
+                            if rel_.startswith(ref.CONTENT_DIR + "/") and e_[0] == "f" and ref.content_path_ok(rel_, e_[1], ctx.xxh3) is False:
+                                V.violation(res, sig + ":content-file-not-matching-address", "after the commit (%s) content file %s (%d bytes) does not hash to its address" % (cls, rel_, len(e_[1])), replay)
+                                break
                         if "err" in rep:
                             if entry == "open":
                                 after = {l: srv.call({"op": l, "cache": cache, "key": KEY}) for l in lookups}
